@@ -12,7 +12,7 @@
 From Coq Require Import List Arith Bool.
 Import ListNotations.
 From ZI Require Import Model.Ro Model.Adapter Model.Lookup Model.RegSys Model.RegPrim Spec.RegChain Proofs.RegChain
-     Gen.RegChainKernel Proofs.RegChainKernel.
+     Proofs.RegChainMixed Gen.RegChainKernel Proofs.RegChainKernel.
 
 (* (a) push flavour: after every history the cached ``ro`` of EVERY registry is the C3 order of
    the current base graph — whichever registry's __bases__ were assigned, at any level *)
@@ -130,6 +130,91 @@ Theorem C06_verifying_verify_empties_cache : forall W call ops r, wf_hist Verify
   rs_caches (get (verify (final W call [] ops) r) r) = empty_caches.
 Proof. exact verifying_verify_empties_hist. Qed.
 Print Assumptions C06_verifying_verify_empties_cache.
+
+(* ------------------------------------------------------------------ MIXED registry graphs
+   [mwf_hist [] ops]: registries of both flavours; a push registry (AdapterRegistry) only ever gets push
+   bases (the real code raises AttributeError otherwise: VerifyingAdapterRegistry has no
+   _addSubregistry), a verifying registry may be based on registries of either flavour — the
+   persistent site manager over the global registry.  The homogeneous theorems above are the
+   special case (C06_homogeneous_histories_are_mixed). *)
+Theorem C06_homogeneous_histories_are_mixed : forall f ops, wf_hist f 0 ops = true -> mwf_hist [] ops = true.
+Proof. exact (fun f ops => wf_hist_mwf f ops 0). Qed.
+Print Assumptions C06_homogeneous_histories_are_mixed.
+
+(* push members are coherent in the state itself, every member once its _verify has run *)
+Theorem C06_mixed_ro_coherent : forall W call ops r, mwf_hist [] ops = true ->
+  r < length (final W call [] ops) ->
+  (rs_flavour (get (final W call [] ops) r) = Push ->
+   rs_ro (get (final W call [] ops) r) = fresh_ro (final W call [] ops) r) /\
+  rs_ro (get (verify (final W call [] ops) r) r) = fresh_ro (verify (final W call [] ops) r) r /\
+  fresh_ro (verify (final W call [] ops) r) r = fresh_ro (final W call [] ops) r /\
+  (forall i, rs_reg (get (verify (final W call [] ops) r) i) = rs_reg (get (final W call [] ops) i)).
+Proof. exact mixed_ro_coherent_hist. Qed.
+Print Assumptions C06_mixed_ro_coherent.
+
+(* the flavour discipline and the sub-registry mirror of the PUSH registries (a verifying registry
+   is nobody's sub-registry: it is never notified) *)
+Theorem C06_mixed_discipline : forall W call ops, mwf_hist [] ops = true ->
+  (forall r b, rs_flavour (get (final W call [] ops) r) = Push -> In b (rs_bases (get (final W call [] ops) r)) ->
+               rs_flavour (get (final W call [] ops) b) = Push /\ In r (rs_subs (get (final W call [] ops) b)) /\ b < r) /\
+  (forall r y, In y (rs_subs (get (final W call [] ops) r)) ->
+               rs_flavour (get (final W call [] ops) r) = Push /\ rs_flavour (get (final W call [] ops) y) = Push).
+Proof. exact mixed_discipline_hist. Qed.
+Print Assumptions C06_mixed_discipline.
+
+Theorem C06_mixed_current_chain_is_reachable_set : forall W call ops r, mwf_hist [] ops = true ->
+  r < length (final W call [] ops) ->
+  (exists t, fresh_ro (final W call [] ops) r = r :: t) /\
+  (forall y, In y (fresh_ro (final W call [] ops) r) <-> Reach (Bs (final W call [] ops)) r y).
+Proof. exact mixed_chain_is_reachable_set_hist. Qed.
+Print Assumptions C06_mixed_current_chain_is_reachable_set.
+
+Theorem C06_mixed_lookup_uses_current_chain : forall W call ops r req p n, mwf_hist [] ops = true ->
+  r < length (final W call [] ops) ->
+  aget cache_key_eqb (c_cache (rs_caches (get (final W call [] ops) r))) (p, n, ckey_of req) = None ->
+  snd (step W call (final W call [] ops) (QLookup r req p (NStr n))) =
+  enc_res_value (res_of (uncached_lookup W (chain_regs (final W call [] ops) r) req p n)).
+Proof. exact mixed_lookup_uses_current_chain_hist. Qed.
+Print Assumptions C06_mixed_lookup_uses_current_chain.
+
+Theorem C06_mixed_lookupAll_uses_current_chain : forall W call ops r req p, mwf_hist [] ops = true ->
+  r < length (final W call [] ops) ->
+  aget mkey_eqb (c_mcache (rs_caches (get (final W call [] ops) r))) (p, req) = None ->
+  snd (step W call (final W call [] ops) (QLookupAll r req p)) =
+  enc_pairs (uncached_lookupAll W (chain_regs (final W call [] ops) r) req p).
+Proof. exact mixed_lookupAll_uses_current_chain_hist. Qed.
+Print Assumptions C06_mixed_lookupAll_uses_current_chain.
+
+Theorem C06_mixed_subscriptions_uses_current_chain : forall W call ops r req p, mwf_hist [] ops = true ->
+  r < length (final W call [] ops) ->
+  aget sckey_eqb (c_scache (rs_caches (get (final W call [] ops) r))) (p, req) = None ->
+  snd (step W call (final W call [] ops) (QSubscriptions r req p)) =
+  map vid (uncached_subscriptions W (chain_regs (final W call [] ops) r) req p).
+Proof. exact mixed_subscriptions_uses_current_chain_hist. Qed.
+Print Assumptions C06_mixed_subscriptions_uses_current_chain.
+
+(* right after an effective change at a registry m of EITHER flavour, every registry below m of
+   EITHER flavour (a verifying one below a changed push one included: it compares the generations of
+   all members of its snapshot) has, or gets on its next _verify, empty caches ... *)
+Theorem C06_mixed_change_empties_caches_below : forall W call ops o m r, mwf_hist [] (ops ++ [o]) = true ->
+  bump_target W (final W call [] ops) o = Some m ->
+  r < length (final W call [] (ops ++ [o])) -> Reach (Bs (final W call [] (ops ++ [o]))) r m ->
+  rs_caches (get (verify (final W call [] (ops ++ [o])) r) r) = empty_caches.
+Proof. exact mixed_change_empties_caches_below_hist. Qed.
+Print Assumptions C06_mixed_change_empties_caches_below.
+
+(* ... and answers from its current chain *)
+Theorem C06_mixed_answers_after_change : forall W call ops o m r, mwf_hist [] (ops ++ [o]) = true ->
+  bump_target W (final W call [] ops) o = Some m ->
+  r < length (final W call [] (ops ++ [o])) -> Reach (Bs (final W call [] (ops ++ [o]))) r m ->
+  (forall req p n, snd (step W call (final W call [] (ops ++ [o])) (QLookup r req p (NStr n))) =
+                   enc_res_value (res_of (uncached_lookup W (chain_regs (final W call [] (ops ++ [o])) r) req p n))) /\
+  (forall req p, snd (step W call (final W call [] (ops ++ [o])) (QLookupAll r req p)) =
+                 enc_pairs (uncached_lookupAll W (chain_regs (final W call [] (ops ++ [o])) r) req p)) /\
+  (forall req p, snd (step W call (final W call [] (ops ++ [o])) (QSubscriptions r req p)) =
+                 map vid (uncached_subscriptions W (chain_regs (final W call [] (ops ++ [o])) r) req p)).
+Proof. exact mixed_answers_after_change_hist. Qed.
+Print Assumptions C06_mixed_answers_after_change.
 
 (* generations: in every reachable state no operation ever lowers the generation of any registry,
    and the registry an operation changes (__bases__ assigned, an effective registration /
@@ -263,3 +348,26 @@ Example chain3_rebuild_ok :
   run W0 call0 [] (chain3_rebuild Push) = [[]; []; []; []; []; []; [1; 1]; []; []; [1; 2]] /\
   run W0 call0 [] (chain3_rebuild Verifying) = [[]; []; []; []; []; []; [1; 1]; []; []; [1; 2]].
 Proof. repeat split; vm_compute; reflexivity. Qed.
+
+(* a mixed chain: push tops 0 and 1, push mid 2(0), verifying 3(mid), verifying 4(3).  Re-basing the
+   PUSH mid is seen from both verifying registries (nobody notifies them: generation of mid), and
+   so is a later registration in the new push top *)
+Definition mixed3 : list rop :=
+  [ONewReg Push []; ONewReg Push []; ONewReg Push [0]; ONewReg Verifying [2]; ONewReg Verifying [3];
+   ORegister 0 [] 1 0 (Some (mkV 1 1)); ORegister 1 [] 1 0 (Some (mkV 2 2));
+   QLookup 4 [] 1 (NStr 0); QLookup 3 [] 1 (NStr 0);
+   OSetRegBases 2 [1];
+   QLookup 4 [] 1 (NStr 0);
+   ORegister 1 [] 1 0 (Some (mkV 3 3));
+   QLookup 4 [] 1 (NStr 0); QLookup 3 [] 1 (NStr 0)].
+Example mixed3_ok : mwf_hist [] mixed3 = true /\
+  run W0 call0 [] mixed3 = [[]; []; []; []; []; []; []; [1; 1]; [1; 1]; []; [1; 2]; []; [1; 3]; [1; 3]].
+Proof. split; vm_compute; reflexivity. Qed.
+
+(* a push registry over a verifying base is outside the quantifier: the real code raises
+   AttributeError ('VerifyingAdapterRegistry' object has no attribute '_addSubregistry') both from
+   AdapterRegistry((verifying,)) and from push.__bases__ = (verifying,) *)
+Example push_over_verifying_excluded :
+  mwf_hist [] [ONewReg Verifying []; ONewReg Push [0]] = false /\
+  mwf_hist [] [ONewReg Verifying []; ONewReg Push []; OSetRegBases 1 [0]] = false.
+Proof. split; vm_compute; reflexivity. Qed.
